@@ -86,9 +86,20 @@ class State:
         self.ver = 0
         self.mute = False
 
-    def bump(self, what):
+    def bump(self, what, families=None):
+        """a write: to the whole heap `what` (families None) or to objects of the given class families only"""
         self.ver += 1
-        self.heapver[what] = self.ver
+        if families:
+            for f in families:
+                self.heapver['%s@%s' % (what, f)] = self.ver
+        else:
+            self.heapver[what] = self.ver
+
+    def version_of(self, key):
+        """version of a read key: 'SEQ', 'DICT', or 'attr@Family' (the later of the last whole-heap and family write)"""
+        if '@' in key:
+            return max(self.heapver.get(key.split('@', 1)[0], 0), self.heapver.get(key, 0))
+        return self.heapver.get(key, 0)
 
     def assume(self, term, kind='pc'):
         if term == smt.TRUE:
